@@ -18,6 +18,7 @@ type Case struct {
 	Stmts   []string `json:"stmts"`
 	Targets []string `json:"targets"` // pool names the statements are allowed to change ("" for none)
 	Form    string   `json:"form"`    // class-key part: expression form
+	NoPrime bool     `json:"no_prime,omitempty"` // the caller has matched no regular expression before the statements
 }
 
 type poolVar struct {
@@ -144,7 +145,9 @@ func Program(c Case) string {
 		fmt.Fprintf(&b, "  set %s.http.Foo = \"fv\";\n  set %s.http.Bar = \"k1=v1,k2=v2\";\n  unset %s.http.Baz;\n", o, o, o)
 	}
 	// make the capture groups defined before the first snapshot
-	b.WriteString("  if (var.s1 ~ \"(a)(b)\") { }\n")
+	if !c.NoPrime {
+		b.WriteString("  if (var.s1 ~ \"(a)(b)\") { }\n")
+	}
 	b.WriteString(snapshot(c.Scope, "S0"))
 	for i, s := range c.Stmts {
 		b.WriteString("  " + s + "\n")
@@ -188,6 +191,32 @@ func exprs(scope string, depth int) map[string][]typed {
 			// plus one variable so that mixed depth occurs
 			out = append(out, cur[t][0])
 			return out
+		}
+		// a parenthesised operand and an if() expression yield the stored value of the variable they select
+		for _, t := range []struct{ typ, other string }{{"INTEGER", "var.i2"}, {"FLOAT", "var.f2"}, {"RTIME", "var.r2"}} {
+			for _, e := range pick(t.typ) {
+				if e.form == "lit" {
+					continue
+				}
+				add(t.typ, "("+e.text+")", "group("+e.form+")")
+				add(t.typ, "if(var.b1, "+e.text+", "+t.other+")", "ifnum("+e.form+")")
+				add(t.typ, "if(var.b2, "+t.other+", "+e.text+")", "ifnum("+e.form+")")
+				if d == 1 {
+					// the unary operator applied to each of these forms, already in the quick tier: an operator that
+					// works in place on its operand must not reach the variable through a group or an if()
+					add(t.typ, "-("+e.text+")", "neg(group("+e.form+"))")
+					add(t.typ, "-if(var.b1, "+e.text+", "+t.other+")", "neg(ifnum("+e.form+"))")
+					add(t.typ, "-if(var.b2, "+t.other+", "+e.text+")", "neg(ifnum("+e.form+"))")
+					add(t.typ, "(-"+e.text+")", "group(neg("+e.form+"))")
+				}
+			}
+		}
+		if d == 1 {
+			for _, e := range pick("BOOL") {
+				if e.form != "lit" {
+					add("BOOL", "(!("+e.text+"))", "not(group("+e.form+"))")
+				}
+			}
 		}
 		for _, e := range pick("INTEGER") {
 			add("INTEGER", "-"+e.text, "neg("+e.form+")")
@@ -390,6 +419,12 @@ func gen(tier string, emit func(Case)) {
 		emit(Case{Scope: sc, Kind: "call", Stmts: []string{"call callee1;"}, Targets: []string{"req.http.Z1", "req.http.Z2"}, Form: "call nested"})
 		emit(Case{Scope: sc, Kind: "call", Stmts: []string{"call callee2;"}, Targets: []string{"req.http.Z2"}, Form: "call leaf"})
 		emit(Case{Scope: sc, Kind: "call", Stmts: []string{"call callee1();"}, Targets: []string{"req.http.Z1", "req.http.Z2"}, Form: "call nested parens"})
+		// the same calls, and calls of functional subroutines that match inside, from a caller that has no capture groups yet
+		emit(Case{Scope: sc, Kind: "call", NoPrime: true, Stmts: []string{"call callee1;"}, Targets: []string{"req.http.Z1", "req.http.Z2"}, Form: "call nested (caller without captures)"})
+		emit(Case{Scope: sc, Kind: "call", NoPrime: true, Stmts: []string{"call callee2;"}, Targets: []string{"req.http.Z2"}, Form: "call leaf (caller without captures)"})
+		emit(Case{Scope: sc, Kind: "call", NoPrime: true, Stmts: []string{"set var.s2 = f2(var.s1, var.i1);"}, Targets: []string{"var.s2"}, Form: "usersub:f2 (caller without captures)"})
+		emit(Case{Scope: sc, Kind: "call", NoPrime: true, Stmts: []string{"set var.s2 = fnest(var.s1);"}, Targets: []string{"var.s2"}, Form: "usersub:fnest (caller without captures)"})
+		emit(Case{Scope: sc, Kind: "call", NoPrime: true, Stmts: []string{"call callee1;", "call callee2;"}, Targets: []string{"req.http.Z1", "req.http.Z2"}, Form: "two calls (caller without captures)"})
 	}
 }
 
@@ -611,7 +646,7 @@ func init() {
 		Level: "exploration",
 		Rule: "every probe statement of the stated alphabet (set T op= E for all 15 operators x pool targets x typed expressions of depth<=1 (quick) / <=2 (thorough); bare conditions, log, fresh-local assignment; copy-then-modify two-step histories; nested calls) in scopes recv/miss/fetch/error/deliver, each run on the real interpreter between snapshots of the whole pool; non-trivial = the statement executed without runtime error (others are skipped, not counted); distinct = distinct (scope, statements)",
 		Gen:  gen,
-		Key:  func(c Case) string { return c.Scope + "\x00" + strings.Join(c.Stmts, "\x00") },
+		Key:  func(c Case) string { return c.Scope + "\x00" + strings.Join(c.Stmts, "\x00") + fmt.Sprint(c.NoPrime) },
 		Run:  run,
 		Assumptions: []string{
 			"snapshots observe variables through VCL `log`, i.e. through the interpreter's own read path",
